@@ -51,6 +51,7 @@ type Task struct {
 	prio        int64
 	spawnSite   string
 	blockedReal string // last site before a real blocking op, for diagnostics
+	pcount      map[string]uint32
 }
 
 // Policy is a schedule policy.
@@ -464,9 +465,21 @@ func P(site string) {
 	if t == nil {
 		return
 	}
-	// decision drawn from the task-independent scheduler PRNG while holding the token: deterministic
+	// the decision is a pure function of (run seed, task, site, how often this task passed this site): it does not
+	// consume the scheduler PRNG, so a preemption point that is only reached on some runs (one-time initialisation)
+	// cannot shift any other decision
 	s.mu.Lock()
-	hit := s.rng.Float64() < s.cfg.Policy.PreemptProb
+	if t.pcount == nil {
+		t.pcount = map[string]uint32{}
+	}
+	n := t.pcount[site]
+	t.pcount[site] = n + 1
+	h := fnv.New64a()
+	h.Write([]byte(t.ID))
+	h.Write([]byte{0})
+	h.Write([]byte(site))
+	x := SplitMix64(s.cfg.Seed ^ h.Sum64() ^ (uint64(n) * 0x9e3779b97f4a7c15))
+	hit := float64(x>>11)/float64(1<<53) < s.cfg.Policy.PreemptProb
 	if hit {
 		s.stats.Preemptions++
 	}
